@@ -318,7 +318,7 @@ def check_emission(ctx, f, hid, steps, paths, li):
     outs = output_strand_names(f)
     role = 'loop#%d:emitted-letter' % (li + 1)
     stepnodes = {s.node.id: s for s in steps}
-    nback, bad = 0, None
+    nback, bad, unknown = 0, None, False
     for path, kind in paths:
         if kind != 'back':
             continue
@@ -329,6 +329,15 @@ def check_emission(ctx, f, hid, steps, paths, li):
         if len(cols) != 1:
             continue        # reported by one-step-per-path
         col = cols[0][2]
+        if len(emitted) == 0:
+            # the strand may be collected as a list of letters and joined at the end
+            appended = [e.term[0] for e in events if e.kind == 'append' and len(e.term) == 1 and
+                        e.term[0][0] == 'sub' and is_alpha(e.term[0][1])]
+            if len(appended) == 1:
+                emitted = appended
+            elif not appended:
+                unknown = True
+                continue
         if len(emitted) != 1:
             bad = "%d letters appended to the strand on a path with one state update" % len(emitted)
             break
@@ -339,6 +348,8 @@ def check_emission(ctx, f, hid, steps, paths, li):
     if bad:
         run.refute('R-WALK', f, role, f.nodes[hid].lineno, bad,
                    inputs='every message: the strand is not the walk the state follows')
+    elif unknown:
+        run.undecided('R-WALK', f, role, f.nodes[hid].lineno, 'how the emitted letters are collected is not recognised')
     else:
         run.ok('R-WALK', f, role, f.nodes[hid].lineno, 'on %d paths the appended letter is ALPHA[c] for the followed column c' % nback)
 
